@@ -40,6 +40,7 @@ THEOREMS = [
     "cache_valid_after_add",
     "cache_valid_reachable",
     "restore_continues_reachable",
+    "pooled_bondcontainer_reset_clean",
 ]
 
 RULE = ("field maps: regenerated from /repo/src on every run (all structs deriving Serialize, all serde attributes, the "
@@ -49,7 +50,10 @@ RULE = ("field maps: regenerated from /repo/src on every run (all structs derivi
         "tempering containers of 2..6 replicas with equal or different Hamiltonians, both filled before the first step and GROWING "
         "(add_qmc_stepper interleaved with tempering steps: 1 or 2 replicas before the first step, every later replica added after "
         "1..3 steps, final sizes 3,4,5,6, snapshot after every op of the history incl. right after an add and right after the step "
-        "following an add, then the rest of the history and >= 12 further tempering steps); a snapshot in both forms at EVERY step "
+        "following an add, then the rest of the history and >= 12 further tempering steps); one Ising configuration in three with NON-dyadic couplings (0.3, 0.7, 1.1) and RVB on, plus SmallRng runs on four small "
+        "frustrated graphs with non-dyadic couplings x 3 (Gamma, beta) x 6/24 seeds with an RNG-less snapshot at every k = 0..50/60 and the "
+        "two fixed regression inputs of the pooled-residue seed; after EVERY step of EVERY copy the allocator hook log is read and every "
+        "instance handed back to a scratch pool must be in its reset state (hidden state outside the snapshot); a snapshot in both forms at EVERY step "
         "index k = 0..K, then m further steps on original / with-RNG copy / RNG-less copy / a copy that is snapshot-restored "
         "after every step, comparing state, operator string, n, cutoff, energy bits, rvb rate bits, verify() and the full JSON "
         "snapshot after each step.  Non-trivial = at least one operator present at the snapshot point; distinct = distinct "
